@@ -285,6 +285,45 @@ pub fn expected_hover(text: &str, offset: usize) -> Option<Option<HoverExpect>> 
     .ok()
 }
 
+/// the range of the rule / token declaration node if the innermost rule node at `offset` is one (harness's own walk)
+pub fn declaration_at(text: &str, offset: usize) -> Option<Option<Value>> {
+    use lelwel::frontend::ast::{AstNode, RuleDecl, TokenDecl};
+    use lelwel::frontend::parser::{Node, NodeRef};
+    let t = text.to_string();
+    std::panic::catch_unwind(move || {
+        let mut diags = vec![];
+        let cst = lelwel::frontend::parser::Parser::new(&t, &mut diags).parse(&mut diags);
+        let mut cur = NodeRef::ROOT;
+        let mut found: Option<NodeRef> = None;
+        loop {
+            let mut next = None;
+            for c in cst.children(cur) {
+                if let Node::Rule(..) = cst.get(c) {
+                    let sp = cst.span(c);
+                    if sp.start <= offset && offset < sp.end {
+                        next = Some(c);
+                        break;
+                    }
+                }
+            }
+            match next {
+                Some(n) => {
+                    found = Some(n);
+                    cur = n;
+                }
+                None => break,
+            }
+        }
+        let node = found?;
+        if RuleDecl::cast(&cst, node).is_some() || TokenDecl::cast(&cst, node).is_some() {
+            Some(range_json(&t, &cst.span(node)))
+        } else {
+            None
+        }
+    })
+    .ok()
+}
+
 fn pos_le(a: &Value, b: &Value) -> bool {
     (a["line"].as_u64().unwrap_or(0), a["character"].as_u64().unwrap_or(0)) <= (b["line"].as_u64().unwrap_or(0), b["character"].as_u64().unwrap_or(0))
 }
@@ -506,54 +545,43 @@ fn judge_inner(h: &History, out: &Outcome, stats: &mut JudgeStats) -> Vec<Violat
                     if *class != PosClass::MidSurrogate {
                         let locs: Vec<Value> = got.as_array().cloned().unwrap_or_default().into_iter().filter(|l| l["uri"].as_str() == Some(uri.as_str())).collect();
                         let clamped = pos_to_offset(&text, *line, *ch).map(|o| offset_to_pos(&text, o)).unwrap_or((*line, *ch));
-                        // the declaration is the range go-to-definition gives for any listed location that is not itself that range
-                        let mut def_range: Option<Value> = None;
-                        let mut broken = false;
-                        for l in &locs {
-                            let (sl, sc) = (l["range"]["start"]["line"].as_u64().unwrap_or(0) as u32, l["range"]["start"]["character"].as_u64().unwrap_or(0) as u32);
-                            if let RefAnswer::Result(d) = &*reference(uri, &text, &Query::Definition, sl, sc) {
-                                if d.is_null() {
-                                    // the location is the declaration itself (go-to-definition on a declaration gives nothing)
-                                    continue;
-                                }
-                                let dr = d["range"].clone();
-                                if !range_contains(&dr, clamped.0, clamped.1) {
-                                    v.push(Violation { class: "definition_references_disagree".into(), site: "reference_does_not_resolve_to_declaration".into(), detail: format!("step {i}: references at {line}:{ch} lists {} but go-to-definition from there gives {}", l["range"], d), step: i });
-                                    broken = true;
-                                    break;
-                                }
-                                match &def_range {
-                                    None => def_range = Some(dr),
-                                    Some(r) if *r != dr => {
-                                        v.push(Violation { class: "definition_references_disagree".into(), site: "references_resolve_to_different_declarations".into(), detail: format!("step {i}: {} vs {}", r, dr), step: i });
+                        // only when the cursor is on a declaration (found by the harness's own walk): every other listed location
+                        // resolves by go-to-definition to exactly that declaration and covers its name or symbol; the declaration
+                        // itself is listed exactly once iff includeDeclaration
+                        let decl_range = pos_to_offset(&text, *line, *ch).and_then(|o| declaration_at(&text, o)).flatten();
+                        if let Some(dr) = decl_range {
+                            stats.defref_checked += 1;
+                            let mut broken = false;
+                            for l in locs.iter().filter(|l| l["range"] != dr) {
+                                let (sl, sc) = (l["range"]["start"]["line"].as_u64().unwrap_or(0) as u32, l["range"]["start"]["character"].as_u64().unwrap_or(0) as u32);
+                                if let RefAnswer::Result(d) = &*reference(uri, &text, &Query::Definition, sl, sc) {
+                                    if d["range"] != dr {
+                                        v.push(Violation { class: "definition_references_disagree".into(), site: "reference_does_not_resolve_to_declaration".into(), detail: format!("step {i}: references on the declaration {} lists {} but go-to-definition from there gives {}", dr, l["range"], d), step: i });
                                         broken = true;
                                         break;
                                     }
-                                    _ => {}
                                 }
                             }
-                        }
-                        if let (false, Some(dr)) = (broken, def_range.as_ref()) {
-                            stats.defref_checked += 1;
-                            let decl_hits = locs.iter().filter(|l| &l["range"] == dr).count();
-                            // the text under every reference is the declared name or one of its symbols
-                            if let Some(dt) = range_text(&text, dr) {
-                                let name: String = dt.chars().take_while(|c| c.is_alphanumeric() || *c == '_').collect();
-                                for l in locs.iter().filter(|l| &l["range"] != dr) {
-                                    if let Some(rt) = range_text(&text, &l["range"]) {
-                                        let ok = rt == name || (rt.starts_with('\'') && dt.contains(&rt));
-                                        if !ok {
-                                            v.push(Violation { class: "definition_references_disagree".into(), site: "reference_text_is_not_the_declared_name".into(), detail: format!("step {i}: reference {} covers {rt:?}, the declaration is {:?}", l["range"], dt.chars().take(60).collect::<String>()), step: i });
-                                            break;
+                            if !broken {
+                                if let Some(dt) = range_text(&text, &dr) {
+                                    let name: String = dt.chars().take_while(|c| c.is_alphanumeric() || *c == '_').collect();
+                                    for l in locs.iter().filter(|l| l["range"] != dr) {
+                                        if let Some(rt) = range_text(&text, &l["range"]) {
+                                            let ok = rt == name || (rt.starts_with('\'') && dt.contains(&rt));
+                                            if !ok {
+                                                v.push(Violation { class: "definition_references_disagree".into(), site: "reference_text_is_not_the_declared_name".into(), detail: format!("step {i}: reference {} covers {rt:?}, the declaration is {:?}", l["range"], dt.chars().take(60).collect::<String>()), step: i });
+                                                break;
+                                            }
                                         }
                                     }
                                 }
-                            }
-                            if *decl && decl_hits != 1 {
-                                v.push(Violation { class: "definition_references_disagree".into(), site: "declaration_not_exactly_once".into(), detail: format!("step {i}: with includeDeclaration the declaration {} appears {decl_hits} times in {}", dr, got.to_string().chars().take(200).collect::<String>()), step: i });
-                            }
-                            if !*decl && decl_hits != 0 {
-                                v.push(Violation { class: "definition_references_disagree".into(), site: "declaration_listed_without_include".into(), detail: format!("step {i}: the declaration {} is listed although includeDeclaration is false", dr), step: i });
+                                let decl_hits = locs.iter().filter(|l| l["range"] == dr).count();
+                                if *decl && decl_hits != 1 {
+                                    v.push(Violation { class: "definition_references_disagree".into(), site: "declaration_not_exactly_once".into(), detail: format!("step {i}: with includeDeclaration the declaration {} appears {decl_hits} times in {}", dr, got.to_string().chars().take(200).collect::<String>()), step: i });
+                                }
+                                if !*decl && decl_hits != 0 {
+                                    v.push(Violation { class: "definition_references_disagree".into(), site: "declaration_listed_without_include".into(), detail: format!("step {i}: the declaration {} is listed although includeDeclaration is false", dr), step: i });
+                                }
                             }
                         }
                     }
